@@ -27,7 +27,7 @@ Proof.
       repeat match goal with H : _ && _ = true |- _ => apply andb_true_iff in H as [? ?] end.
     + (* TMProp *) apply member_prop; auto.
       match goal with H : match ?k with [] => false | _ :: _ => true end = true |- _ => destruct k; [discriminate H|discriminate] end.
-    + (* TMMeth *) destruct Pm as [PPs PRet].
+    + (* TMMeth *) destruct Pm as [PTs [PPs PRet]].
       apply member_meth; auto.
       * intros ->. assumption.
       * intros ->. match goal with H : negb ?o = true |- _ => apply negb_true_iff in H; exact H end.
@@ -66,11 +66,12 @@ Proof.
   - apply K_infer.
   - apply K_paren, IHt.
   - apply K_fn; assumption.
+  - intros W; discriminate. - split; [apply IHt1|apply IHt2].
   - intros W; discriminate. - apply IHt.
   - intros W; discriminate. - apply IHt.
   - apply K_obj. assumption.
   - intros W; discriminate. - apply IHt.
-  - intros W; discriminate. - split; [apply params_loop; assumption|apply ret_st; assumption].
+  - intros W; discriminate. - split; [apply tparams_st; assumption|split; [apply params_loop; assumption|apply ret_st; assumption]].
   - intros W; discriminate. - split; [apply IHt1|apply IHt2].
   - intros W; discriminate. - split; [apply IHt1|split; [apply IHt2|apply IHt3]].
   - apply K_cond; [apply IHt1|apply IHt2|apply IHt3|apply IHt4].
